@@ -98,8 +98,16 @@ static void print_log(struct reftable_log_record *l, int hs)
 	putshex(l->value.update.name);
 	printf(":");
 	putshex(l->value.update.email);
-	printf(":%llu:%u:", (unsigned long long)l->value.update.time,
-	       (unsigned)(uint16_t)l->value.update.tz_offset);
+	{
+		/* the value a caller sees: minutes east of UTC, a signed 16 bit quantity (printed
+		   like the Go side prints it, as its two's complement); anything else is shown raw */
+		long tz = (long)l->value.update.tz_offset;
+		printf(":%llu:", (unsigned long long)l->value.update.time);
+		if (tz < -32768 || tz > 32767)
+			printf("%ld!not-int16:", tz);
+		else
+			printf("%u:", (unsigned)(uint16_t)tz);
+	}
 	putshex(l->value.update.message);
 }
 
